@@ -305,6 +305,12 @@ def run(ctx):
     pr = ws.methods["_prune_and_rename"]
     _namespaces(ctx, r4, pr)
     pre_loops = [n for n in ast.walk(pr.node) if isinstance(n, ast.For) and any(isinstance(r, ast.Raise) for r in ast.walk(n))]
+    for h_ in repo.helpers_of(pr, depth=1):  # the checks may live in a helper the method calls before it rebuilds: they count at the call
+        calls_ = [c for c in A.calls_in(pr.node) if (A.call_attr(c) or "") == h_.name]
+        for n in ast.walk(h_.node):
+            if isinstance(n, ast.For) and any(isinstance(r, ast.Raise) for r in ast.walk(n)) and calls_:
+                n2 = ast.copy_location(ast.For(target=n.target, iter=n.iter, body=n.body, orelse=n.orelse), calls_[0])
+                pre_loops.append(n2)
     newspec_line = min([n.lineno for n in ast.walk(pr.node) if isinstance(n, ast.Dict) and any(A.const_value(k) == "channels" for k in n.keys if k is not None)] or [0])
     if len(pre_loops) >= 5 and all(l.lineno < newspec_line for l in pre_loops) and all(_exc(r) == "InvalidWorkspaceOperation" for l in pre_loops for r in ast.walk(l) if isinstance(r, ast.Raise)):
         ctx.holds(r4, f"{WS}::_prune_and_rename", f"{len(pre_loops)} unknown-name checks precede the rebuild")
